@@ -787,7 +787,8 @@ pub fn main(tier: Tier) -> ! {
     run.family("F-path-effect", st.json());
     run.add(st.c);
 
-    let maxd = if run.quick() { 4 } else { 6 };
+    // 20 binding forms: depth 5 is 5.2 million nests; depth 6 (110 million) does not fit a thorough run
+    let maxd = if run.quick() { 4 } else { 5 };
     for d in 1..=maxd {
         if !run.time_left() {
             run.bound_capped(format!("F-bind: depth {d} not started (wall budget)"));
@@ -808,7 +809,7 @@ pub fn main(tier: Tier) -> ! {
     run.add(st.c);
 
     run.finish(
-        "programs are enumerated exhaustively per family (binder nests of depth d over 17 binding forms x 3 leaf variants; all terms with <= n constructor nodes over a control and a value alphabet; all operator x operand-pair combinations); each program is printed by the harness's own printer, compiled by the real compiler and run item by item; the event trace (outputs, first error/halt, effect ticks, input pulls) must equal the reference evaluator's. non-trivial = the model trace has at least one output or ends in an error; distinct = distinct (family, program text, input)",
+        "programs are enumerated exhaustively per family (binder nests of depth <= 4 (thorough 5) over 20 binding forms x 3 leaf variants; 10 recursion shapes x 7 bases x 25 wrappers; all terms with <= n constructor nodes over a control and a value alphabet; all operator x operand-pair combinations); each program is printed by the harness's own printer, compiled by the real compiler and run item by item; the event trace (outputs, first error/halt, effect ticks, input pulls) must equal the reference evaluator's. non-trivial = the model trace has at least one output or ends in an error; distinct = distinct (family, program text, input)",
         &["the reference evaluator and its prelude are transcribed from docs/*.dj; built-in error messages are not compared", "output streams are compared on the first 16-40 outputs", "programs whose model run exhausts its fuel are not compared (reported as undecided_by_model)"],
     )
 }
